@@ -115,3 +115,53 @@ End C06.
 Theorem C06_operands_total :
   forall n : fnumber, fval_in_f64_range (n_value n) -> exists ops, fnumber_operands n = Done ops.
 Proof. exact fnumber_operands_total. Qed.
+
+(* ---------- non-vacuity: the model on the classical attacks and on the historical witnesses ---------- *)
+Definition ex_call (_ : bytes) (_ : list fvalue) (_ : fargs) : fvalue := VError.
+Definition ex_rules_one (_ : ntype) (_ : operands) : pcat := ONE.
+Definition ex_id (x : bytes) : bytes := x.
+Definition s (x : string) : bytes := bytes_of_string x.
+Definition ref (id : string) := PlaceableElement (Inline (MessageReference (s id) None)).
+Definition lit := PlaceableElement (Inline (StringLiteral (s "a"))).
+Definition ex_run (m : list (bytes * bentry)) (p : pattern) :=
+  match format_pattern true ex_call None None ex_rules_one ex_id ex_id ex_id f64_from_str_exact (Bundle m false) None
+          (fuel_of (Bundle m false) p) p [] with
+  | Done (t, sc) => Some (length t, sc_errors sc, sc_placeables sc, sc_dirty sc)
+  | _ => None
+  end.
+
+(* billion laughs, arity 10, depth 3 (1110 placeables if unbounded): stops at the 101st, 276 bytes *)
+Definition laughs : list (bytes * bentry) :=
+  [(s "lol0", EMessage (Some (Pattern [TextElement (s "lol")])) []);
+   (s "lol1", EMessage (Some (Pattern (repeat (ref "lol0") 10))) []);
+   (s "lol2", EMessage (Some (Pattern (repeat (ref "lol1") 10))) []);
+   (s "lol3", EMessage (Some (Pattern (repeat (ref "lol2") 10))) [])].
+Example C06_example_laughs :
+  ex_run laughs (Pattern (repeat (ref "lol2") 10)) = Some (276, [TooManyPlaceables], 101%N, true).
+Proof. vm_compute. reflexivity. Qed.
+
+(* a = { b }, b = { a } *)
+Example C06_example_cycle :
+  ex_run [(s "a", EMessage (Some (Pattern [ref "b"])) []); (s "b", EMessage (Some (Pattern [ref "a"])) [])]
+         (Pattern [ref "b"]) = Some (3, [Cyclic], 2%N, false).
+Proof. vm_compute. reflexivity. Qed.
+
+(* D9 (fixed by 644bc0e): the limit trips inside `{ 1 -> [one] {m7} *[other] y }` and inside `{ { m7 } }` *)
+Definition m7 := [(s "m7", EMessage (Some (Pattern [lit; lit; lit])) [])].
+Example C06_example_limit_in_variant :
+  ex_run m7 (Pattern (repeat lit 99 ++
+               [PlaceableElement (Select (NumberLiteral (s "1"))
+                  [Variant (KeyIdentifier (s "one")) (Pattern [ref "m7"]) false;
+                   Variant (KeyIdentifier (s "other")) (Pattern [TextElement (s "y")]) true])]))
+  = Some (102, [TooManyPlaceables], 101%N, true).
+Proof. vm_compute. reflexivity. Qed.
+Example C06_example_limit_in_nested_placeable :
+  ex_run m7 (Pattern (repeat lit 99 ++ [PlaceableElement (Inline (Placeable (Inline (Placeable (Inline (MessageReference (s "m7") None))))))]))
+  = Some (103, [TooManyPlaceables], 101%N, true).
+Proof. vm_compute. reflexivity. Qed.
+
+(* D10 (fixed by 1bd1445): 20 and more visible fraction digits saturate instead of overflowing *)
+Example C06_example_operands_25_digits :
+  fnumber_operands (FNum (FDec false (s "1") (s "5")) (NOptions Cardinal StyleDecimal None CurSymbol true None (Some 25%N) None None None))
+  = Done (Operands (FDec false (s "1") (s "5")) 1 25 1 u64_max 5).
+Proof. vm_compute. reflexivity. Qed.
